@@ -230,13 +230,34 @@ func typeMentions(s jv, name string) bool {
 
 // c13Class names the known-finding class a (schema, instance) pair falls in, "" if none.
 // The order matters: the first matching class wins.
-func c13Class(s jv, inst jv) string {
-	return c13ClassImpl(s, inst)
+func c13Class(s jv, inst jv, flags string) string {
+	return c13ClassImpl(s, inst, flags)
 }
 
 // c13GenClass: class of a reverse-direction case (original schema s, generated schema g).
-func c13GenClass(s, g jv, inst jv) string {
-	return c13GenClassImpl(s, g, inst)
+func c13GenClass(s, g jv, inst jv, flags string) string {
+	return c13GenClassImpl(s, g, inst, flags)
+}
+
+// c13AstFlags inspects the extracted CUE: "matchIf-error-arg" when some matchIf call has an
+// argument that is error("disallowed") (an unsatisfiable if / then / else).
+func c13AstFlags(f *ast.File) string {
+	flag := ""
+	ast.Walk(f, func(n ast.Node) bool {
+		if c, ok := n.(*ast.CallExpr); ok {
+			if id, ok := c.Fun.(*ast.Ident); ok && id.Name == "matchIf" {
+				for _, a := range c.Args {
+					if ac, ok := a.(*ast.CallExpr); ok {
+						if aid, ok := ac.Fun.(*ast.Ident); ok && aid.Name == "error" {
+							flag = "matchIf-error-arg"
+						}
+					}
+				}
+			}
+		}
+		return true
+	}, nil)
+	return flag
 }
 
 // ---- fixed corpus ----------------------------------------------------------------------------
